@@ -2311,7 +2311,8 @@ static int write_str_clearly (
 		}
 	}
 
-	if (len > 1 && end[-1] != HAWK_T('\n'))
+	/* the last input line may come without a line terminator */
+	if (len <= 0 || end[-1] != HAWK_T('\n'))
 		WRITE_STR (sed, HAWK_T("$\n"), 2);
 
 	return 0;
